@@ -727,3 +727,117 @@ Proof.
         rewrite (insert_pos_app _ _ _ (pos_params_kinds an args (length args - 0) []) (rest_head_not_pos an _ _ _ _)).
         reflexivity.
 Qed.
+
+(* once a name is duplicated it stays duplicated: add_arg only appends to args *)
+Lemma add_arg_keeps_dup b n d b' : ~ NoDup (all_names b) -> add_arg b n d = Ok b' -> ~ NoDup (all_names b').
+Proof.
+  intros DUP E H. apply DUP. unfold add_arg in E.
+  destruct (mem n (fb_args b)); [discriminate|]. destruct (mem n (fb_kwonly b)); [discriminate|].
+  assert (X : all_names b' = (fb_args b ++ [n]) ++ olist (fb_varargs b) ++ fb_kwonly b ++ olist (fb_varkw b)).
+  { destruct d; [inversion E; reflexivity|].
+    destruct (match fb_defaults b with Some (_ :: _) => true | _ => false end); [discriminate|].
+    inversion E. reflexivity. }
+  rewrite X in H. rewrite <- app_assoc in H. simpl in H. apply NoDup_remove_1 in H. exact H.
+Qed.
+
+Lemma add_args_keeps_dup exp : forall b b', ~ NoDup (all_names b) -> add_args b exp = Ok b' -> ~ NoDup (all_names b').
+Proof.
+  induction exp as [|[n d] r IH]; intros b b' DUP E.
+  - simpl in E. inversion E; subst. exact DUP.
+  - simpl in E. destruct (add_arg b n d) as [b1|e] eqn:A; [|discriminate].
+    eapply IH; [|exact E]. eapply add_arg_keeps_dup; eassumption.
+Qed.
+
+(* add_args against spec_expects: lock-step, except that a clash with the name
+   of *args / **kwargs surfaces only when the source is compiled *)
+Lemma add_args_refines exp : forall b, good b -> Forall (fun nd => fst nd <> 0) exp ->
+  match add_args b exp, spec_expects exp (fb_sig b) with
+  | Ok b', Ok s' => good b' /\ fb_sig b' = s' /\ same_meta b b'
+  | Ok b', Raise _ => ~ NoDup (all_names b')
+  | Raise _, Raise _ => True
+  | Raise _, Ok _ => False
+  end.
+Proof.
+  induction exp as [|[n d] r IH]; intros b G NZ.
+  - simpl. split; [exact G | split; [reflexivity | apply same_meta_refl]].
+  - inversion NZ as [|? ? Hn NZr]; subst. simpl in Hn. cbn [add_args spec_expects].
+    pose proof (add_arg_refines b n d G Hn) as A.
+    destruct (add_arg b n d) as [b1|e] eqn:EA; destruct (spec_expect (n, d) (fb_sig b)) as [s1|e'] eqn:ES;
+      try exact A; try contradiction.
+    + destruct A as [G1 [S1 M1]]. subst s1. specialize (IH b1 G1 NZr).
+      destruct (add_args b1 r), (spec_expects r (fb_sig b1)); try exact IH.
+      destruct IH as [? [? ?]]. split; [assumption | split; [assumption | eapply same_meta_trans; eassumption]].
+    + destruct (add_args b1 r) as [b2|] eqn:E2; [|exact I]. eapply add_args_keeps_dup; eassumption.
+Qed.
+
+(* ---- update_wrapper ------------------------------------------------------------------------------------------ *)
+Definition fb_func (b : fbuilder) : pyfunc :=
+  mkF (fb_name b) (Some (fb_doc b)) (fb_module b) (fb_args b) (fb_varargs b) (fb_kwonly b) (fb_varkw b)
+      (fb_defaults b) (Some (fb_kwdefaults b)) (fb_annotations b) (fb_async b).
+
+Lemma get_func_good b : good b -> get_func b = Ok (fb_func b) /\ sig_of (fb_func b) = Ok (fb_sig b).
+Proof.
+  intros G. split.
+  - unfold get_func. rewrite (proj2 (nodup_b_NoDup _) (g_nodup b G)). reflexivity.
+  - rewrite sig_of_func_sig by (simpl; apply (g_len b G)). reflexivity.
+Qed.
+
+Lemma get_func_dup b : ~ NoDup (all_names b) -> get_func b = Raise SyntaxErr.
+Proof.
+  intro H. unfold get_func. destruct (nodup_b (all_names b)) eqn:E; [|reflexivity].
+  apply nodup_b_NoDup in E. contradiction.
+Qed.
+
+Lemma sig_of_set_doc g doc : sig_of (set_doc g doc) = sig_of g.
+Proof. reflexivity. Qed.
+
+Lemma get_invocation_fb b : get_invocation b = inv_of_params (sg_params (fb_sig b)).
+Proof.
+  unfold fb_sig, mk_sig. cbn [sg_params]. rewrite mk_params_sparams.
+  rewrite inv_of_params_structured by (try apply seg_P; try apply seg_VA; try apply seg_KP; try apply seg_VK).
+  unfold get_invocation, inv_of. rewrite pos_params_names. rewrite !map_map. simpl. rewrite map_id.
+  f_equal.
+  - destruct (fb_varargs b); reflexivity.
+  - rewrite <- (map_id (fb_kwonly b)) at 1. rewrite map_map. reflexivity.
+  - destruct (fb_varkw b); reflexivity.
+Qed.
+
+(* THE REFINEMENT: the function update_wrapper builds has the signature the
+   reference computes from the wrapped function's signature, the wrapped
+   function's metadata, and a body that passes its own parameters on. *)
+Theorem update_wrapper_refines f inj exp :
+  wf_func f -> Forall (fun nd => fst nd <> 0) exp ->
+  match update_wrapper f inj exp, spec_wraps (func_sig f) inj exp with
+  | Ok g, Ok s =>
+      sig_of (b_func g) = Ok s /\
+      f_name (b_func g) = f_name f /\ f_doc (b_func g) = f_doc f /\
+      f_module (b_func g) = f_module f /\ f_async (b_func g) = f_async f /\
+      b_wrapped_is_func g = true /\
+      b_inv g = inv_of_params (sg_params s)
+  | Raise _, Raise _ => True
+  | _, _ => False
+  end.
+Proof.
+  intros WF NZ. destruct (from_func_good f WF) as [b0 [E0 [G0 [S0 [Mn [Md [Mm Ma]]]]]]].
+  unfold update_wrapper, spec_wraps. rewrite E0, <- S0.
+  pose proof (remove_args_refines inj b0 G0) as R.
+  destruct (remove_args b0 inj) as [b1|e1]; destruct (spec_injects inj (fb_sig b0)) as [s1|e1'];
+    try exact R; try contradiction.
+  destruct R as [G1 [S1 M1]]. subst s1.
+  pose proof (add_args_refines exp b1 G1 NZ) as A.
+  destruct (add_args b1 exp) as [b2|e2]; destruct (spec_expects exp (fb_sig b1)) as [s2|e2'];
+    try exact A; try contradiction.
+  - destruct A as [G2 [S2 M2]]. subst s2.
+    destruct (get_func_good b2 G2) as [GF SF]. rewrite GF.
+    destruct M1 as [M1n [M1d [M1m M1a]]]. destruct M2 as [M2n [M2d [M2m M2a]]].
+    assert (META : fb_name b2 = f_name f /\ fb_module b2 = f_module f /\ fb_async b2 = f_async f /\
+                   fb_doc b2 = match f_doc f with Some d => d | None => 0 end).
+    { repeat split; congruence. }
+    destruct META as [Xn [Xm [Xa Xd]]].
+    destruct (f_doc f) as [dc|] eqn:FD; cbn [b_func b_inv b_wrapped_is_func].
+    + repeat split; try assumption.
+      * simpl. rewrite Xd. reflexivity.
+      * apply get_invocation_fb.
+    + rewrite sig_of_set_doc. repeat split; try assumption. apply get_invocation_fb.
+  - rewrite (get_func_dup b2 A). exact I.
+Qed.
